@@ -1,5 +1,5 @@
 (** C19 — Task mutators, their recorded operations and the task model agree. *)
-From TC Require Import Model.Task Model.TaskMut Proofs.TaskMutP Proofs.TagsP Proofs.UdaP Proofs.SynthP.
+From TC Require Import Model.Task Model.TaskMut Proofs.TaskMutP Proofs.TagsP Proofs.UdaP Proofs.SynthP Proofs.ReplayP.
 From Coq Require Import Strings.String.
 
 (** For any sequence of mutator calls (refused ones change nothing) on a task
@@ -177,6 +177,19 @@ Theorem C19_gone_or_closed_blocks_nobody : forall parse_uuid (tasks : gmap N tma
   (u, d) ∉ depmap parse_uuid tasks ws.
 Proof. exact gone_or_closed_blocks_nobody. Qed.
 
+(** Repeated application: replaying a log of recorded updates is idempotent
+    on every stored task, so committing the operations recorded by any
+    sequence of mutator calls a second time still leaves the stored task
+    identical to the task the caller holds. *)
+Theorem C19_replay_idempotent : forall (l : list (list N * option (list N) * option (list N))) (m : gmap (list N) (list N)),
+  replay_log (replay_log m l) l = replay_log m l.
+Proof. exact replay_idempotent. Qed.
+
+Theorem C19_repeated_application : forall (nowstr : list N) (m0 : gmap (list N) (list N)) (um : bool) (l : list mutator),
+  let s := run_mutators nowstr {| ts_map := m0; ts_um := um; ts_log := [] |} l in
+  replay_log (replay_log m0 (ts_log s)) (ts_log s) = ts_map s.
+Proof. exact repeated_application. Qed.
+
 Print Assumptions C19_held_equals_stored.
 Print Assumptions C19_mutator_keeps_agreement.
 Print Assumptions C19_modified_once_first.
@@ -210,3 +223,5 @@ Print Assumptions C19_synth_blocked.
 Print Assumptions C19_synth_only_names.
 Print Assumptions C19_depmap_exact.
 Print Assumptions C19_gone_or_closed_blocks_nobody.
+Print Assumptions C19_replay_idempotent.
+Print Assumptions C19_repeated_application.
